@@ -550,6 +550,14 @@ def main():
                                        "instruction %d: %s" % (kind, d, dsl.instr_to_text(c["instrs"][d])
                                                                if d < len(c["instrs"]) else "?")})
     extra_counts = {}
+    # programs that end in a panic on BOTH sides are legitimate only in refusal streams; everywhere else they
+    # silently truncate coverage, so they are counted per class and shown
+    both_panic = {}
+    for c, r, m in zip(cases, rust, model):
+        if r and m and r[-1] == "panic" and m[-1] == "panic":
+            cls = c.get("cls", "default")
+            both_panic[cls] = both_panic.get(cls, 0) + 1
+    extra_counts["programs_ending_in_a_panic_on_both_sides_by_class"] = both_panic
     t1 = time.time()
     if spec.get("dual"):
         fl, n = dual_check(cases, rust, workdir, rtol)
